@@ -521,8 +521,9 @@ def decide(prop, tier, seed):
     if not obligations:
         undecided.append({"obligation": "*", "reason": "no obligation was generated (vacuity guard)"})
     samples = []
-    for o in obligations[:6]:
-        samples.append({k: o[k] for k in ("name", "engine", "harness", "result") if k in o})
+    own = sorted(obligations, key=lambda x: (not x["name"].startswith(prop + "."), not x.get("contract")))
+    for o in own[:8]:
+        samples.append({k: o[k] for k in ("name", "engine", "harness", "result", "contract", "completeness") if k in o})
     trusted = list(spec.get("trusted", []))
     tv = vlib.tool_versions()
     trusted += [f"{k}: {v}" for k, v in tv.items()]
